@@ -315,40 +315,117 @@ def _slice_sizes(ctx, run, f):
 
 
 def _payload_guard(ctx, run, f):
+    """The call through bs->func is reached only through an edge on which `bs->payload <= <capacity>` holds, where the
+    capacity is the caller's buffer_size in the unit bs->payload is kept in (bits for endian 3 / 2, octets for 1 / 0).
+    Decided as an edge cut (the test may be one expression, one test per unit class, or a capacity computed into a local
+    first); the unit of every such edge is checked against the endian class it is taken under."""
     run.touch(f)
     calls = [i for b, i in flow.all_events(f) if f.exprs[i]["k"] == "call" and "fn" in f.exprs[i]]
     run.floor("%s: calls through bs->func" % f.name, len(calls), 1)
+    size_p = f.params[2]["name"]
+    F_PAY, F_END = "_vbi3_bit_slicer.payload", "_vbi3_bit_slicer.endian"
+    units = _payload_units(ctx)
+
+    def defs_of(name):
+        out = []
+        for b, i in flow.all_events(f):
+            for lhs, var, op, rhs in flow.stores(f, i):
+                nm = var["name"] if var is not None else (f.exprs[ex.skip(f, lhs)].get("name") if lhs is not None and
+                                                          f.exprs[ex.skip(f, lhs)]["k"] == "ref" else None)
+                if nm == name and rhs is not None:
+                    out.append((b, rhs))
+        return out
+
+    def capacity_forms(a):
+        """[(expression node, block whose dominating atoms apply)] for the right-hand side of a guard atom."""
+        if a.R is None or a.R.node is None:
+            return []
+        if size_p in a.R.locals:
+            return [(a.R.node, a.src)]
+        forms = []
+        for nm in a.R.locals:
+            ds = defs_of(nm)
+            if ds and all(size_p in atoms.Operand(f, rhs).locals for b, rhs in ds):
+                forms += [(rhs, b) for b, rhs in ds]
+        return forms
+
+    def scaled8(node):
+        for n in ex.walk(f, node):
+            e = f.exprs[n]
+            if e["k"] == "bin" and ((e["op"] == "*" and 8 in (ex.const(f, e["c"][0]), ex.const(f, e["c"][1]))) or
+                                    (e["op"] == "<<" and ex.const(f, e["c"][1]) == 3)):
+                return True
+        return False
+
+    def endian_class(bid):
+        excl = set()
+        for a in atoms.dominating_atoms(f, bid):
+            if not a.L.has(F_END) or a.R is None or a.R.const is None:
+                continue
+            c = a.R.const
+            for v in (0, 1, 2, 3):
+                if (a.rel == "<" and v >= c) or (a.rel == "<=" and v > c) or (a.rel == "==" and v != c) or (a.rel == "!=" and v == c) \
+                        or (a.rel == ">" and v <= c) or (a.rel == ">=" and v < c):
+                    excl.add(v)
+        return {0, 1, 2, 3} - excl
+    guard_edges = []
+    for bid in f.reachable_blocks():
+        t = f.blocks[bid].term
+        if not t or "cond" not in t:
+            continue
+        for s2, lab in f.edges(bid):
+            if lab not in ("T", "F"):
+                continue
+            for a in atoms.edge_atoms(f, bid, lab):
+                if a.rel == "<=" and a.L.has(F_PAY) and capacity_forms(a):
+                    guard_edges.append((bid, s2, lab, a))
     for i in calls:
-        ats = atoms.atoms_at(f, i)
-        ok = any(a.rel == "<=" and a.L.has("_vbi3_bit_slicer.payload") and a.R is not None and f.params[2]["name"] in a.R.locals for a in ats)
+        cb = flow.elem_pos(f)[i][0]
+        seen, st, reach = set(), [f.entry], False
+        cut = {(b, s2) for b, s2, lab, a in guard_edges}
+        while st:
+            b = st.pop()
+            if b in seen:
+                continue
+            seen.add(b)
+            if b == cb:
+                reach = True
+                break
+            for s2, lab in f.edges(b):
+                if (b, s2) not in cut:
+                    st.append(s2)
         key = "RF-DOM:%s:payload-fits-buffer" % f.name
-        # bs->payload is kept in bits for the bitwise routines and in octets for the octet routines
-        # (two stores in set_params, selected together with bs->endian): a test against the buffer
-        # size is in the right unit only if it reads bs->endian as well
-        units = _payload_units(ctx)
-        unit_ok = any(a.rel == "<=" and a.L.has("_vbi3_bit_slicer.payload") and a.R is not None
-                      and (a.R.has("_vbi3_bit_slicer.endian") or a.L.has("_vbi3_bit_slicer.endian")) for a in ats)
-        rounded = None
-        for a in ats:
-            if a.rel == "<=" and a.L.has("_vbi3_bit_slicer.payload") and a.R is not None and a.L.node is not None:
-                rounded = rounded or _rounds_down(f, a.L.node, "payload")
-        if ok and rounded:
+        if reach or not guard_edges:
+            run.violation("RF-DOM", key, "the slicer function is called without the payload-vs-buffer_size test: the payload is written "
+                          "into a buffer that may be too small", ex.loc(f, i))
+            continue
+        bad_unit, rounded = None, None
+        for b, s2, lab, a in guard_edges:
+            rounded = rounded or (_rounds_down(f, a.L.node, "payload") if a.L.node is not None else None)
+            for node, where in capacity_forms(a):
+                reads_endian = F_END in atoms.Operand(f, node).fields or a.L.has(F_END)
+                if reads_endian or len(units) <= 1:
+                    continue
+                cls = endian_class(where if where is not None else b) & endian_class(b)
+                if scaled8(node) and not cls <= {2, 3}:
+                    bad_unit = "`%s` counts bits but is used for endian %s" % (ex.pretty(f, node)[:40], sorted(cls))
+                if not scaled8(node) and not cls <= {0, 1}:
+                    bad_unit = "`%s` counts octets but is used for endian %s" % (ex.pretty(f, node)[:40], sorted(cls))
+        if rounded:
             run.violation("RF-UNIT", "RF-UNIT:%s:payload-guard-rounding" % f.name, "the buffer test compares `%s` with the buffer size: "
                           "the division rounds the payload down, so a payload that is not a multiple of the divisor passes the test "
                           "with a buffer one octet too small" % rounded, ex.loc(f, i))
-        elif ok and len(units) > 1 and not unit_ok:
+        elif bad_unit:
             run.violation("RF-UNIT", "RF-UNIT:%s:payload-guard-unit" % f.name, "bs->payload is stored in %d different units by "
-                          "vbi3_bit_slicer_set_params (%s) but the buffer test does not read bs->endian, which selects the unit: "
+                          "vbi3_bit_slicer_set_params (%s) but the buffer test is not in the unit of the mode it is taken for (%s): "
                           "for byte aligned payloads a buffer eight times too small passes the test and the slicer writes past it"
-                          % (len(units), " / ".join(sorted(units))), ex.loc(f, i), witness={"units": sorted(units)})
-        elif ok:
-            if len(units) > 1:
-                run.holds("RF-UNIT", "RF-UNIT:%s:payload-guard-unit" % f.name, "the buffer test reads bs->endian, which selects the "
-                          "unit (%s) bs->payload is kept in" % " / ".join(sorted(units)), ex.loc(f, i))
-            run.holds("RF-DOM", key, "bs->func is called only under bs->payload <= buffer_size (in the unit of bs->payload)", ex.loc(f, i))
+                          % (len(units), " / ".join(sorted(units)), bad_unit), ex.loc(f, i), witness={"units": sorted(units)})
         else:
-            run.violation("RF-DOM", key, "the slicer function is called without the payload-vs-buffer_size test: the payload is written "
-                          "into a buffer that may be too small", ex.loc(f, i))
+            if len(units) > 1:
+                run.holds("RF-UNIT", "RF-UNIT:%s:payload-guard-unit" % f.name, "every buffer test is in the unit (%s) of the endian "
+                          "class it is taken under" % " / ".join(sorted(units)), ex.loc(f, i))
+            run.holds("RF-DOM", key, "bs->func is reachable only through an edge `bs->payload <= buffer_size` (in the unit of "
+                      "bs->payload); %d such edge(s)" % len(guard_edges), ex.loc(f, i))
 
 
 def _rounds_down(f, node, member):
